@@ -597,6 +597,9 @@ class C04(Suite):
         subs = rng.sample([1, 2, 3], rng.choice([2, 2, 3]))
         preds = rng.sample([4, 5], rng.choice([1, 2, 2]))
         objs = sorted(set(rng.sample(subs, rng.choice([1, 2])) + rng.sample([10, 11, 12], rng.choice([0, 1, 1, 2]))))
+        if rng.random() < 0.2:
+            # a literal of a second kind in the data (xsd:boolean next to the integers): finding F-C04-9's region
+            objs = sorted(set(objs + [rng.choice([20, 21])]))
         env = {"rng": rng, "nv": nv, "subs": subs, "preds": preds, "objs": objs, "ds": is_ds,
                "budget": rng.choice([2, 3, 4, 5, 6])}
 
@@ -1092,10 +1095,13 @@ TRUSTED = [
     "(fails closed), conversion of Result.bindings / askAnswer / graph into the observation",
     "the pyparsing grammar of rdflib (parser.py) - outside the model; the translation algebra.py is compared with an independent "
     "section-18.2 translation of the AST by the harness (shape, filter placement), its annotations (lazy, _vars, no_isolated_scope) are taken as data",
-    "coq/Sparql/EvalBU.v as the reading of SPARQL 1.1 section 18 (incl. EXISTS as compatibility with the current solution)",
+    "coq/Sparql/EvalBU.v as the reading of SPARQL 1.1 section 18 (incl. EXISTS as compatibility with the current solution, a filter at the "
+    "top of the EXISTS pattern seeing the merged solution whatever rdflib's no_isolated_scope annotation says; no substitution into deeper filters)",
 ]
 ASSUMPTIONS = [
-    "vocabulary: IRIs and small xsd:integer literals in the data, xsd:boolean literals arise from expressions only; no blank nodes, no language tags",
+    "vocabulary: IRIs, small xsd:integer literals and (in 20 % of the cases) one xsd:boolean literal among the objects of the data; "
+    "no plain / language-tagged strings, no blank nodes; the theorems C04_pushdown_partial / C04_spec_ok_model_partial assume data without "
+    "boolean literals (case_wf): with them and a comparison in the query the case is in the region of F-C04-9 (trigger 9)",
     "initBindings empty (C15 exercises initBindings by conformance)",
     "the order of solutions and of dict entries is not observed",
     "expressions: variables, constants, = != < >, && || !, BOUND, IN / NOT IN over constant lists with an atomic left operand, IF, COALESCE, "
@@ -1105,5 +1111,5 @@ ASSUMPTIONS = [
 ]
 RULE = ("queries: group graph patterns of nesting <= 4 over 1-4 variables shared at random between BGPs, OPTIONAL, UNION, MINUS, FILTER "
         "(comparisons, && || !, BOUND, IN / NOT IN over constants, IF, COALESCE, (NOT) EXISTS), BIND (also of IF / COALESCE with an operand that raises), VALUES (with UNDEF and duplicate rows), sub-SELECT (DISTINCT or not), GRAPH "
-        "(IRI or variable; 14 % of the dataset cases: (NOT) EXISTS as FILTER / OPTIONAL condition / BIND inside GRAPH ?g over two named graphs that share the outer matches and differ in what the EXISTS pattern matches), SELECT (star or projection) / ASK / CONSTRUCT; data: 1-5 triples over 2-3 subjects, 1-2 predicates, 2-3 objects, "
+        "(IRI or variable; 14 % of the dataset cases: (NOT) EXISTS as FILTER / OPTIONAL condition / BIND inside GRAPH ?g over two named graphs that share the outer matches and differ in what the EXISTS pattern matches), SELECT (star or projection) / ASK / CONSTRUCT; data: 1-5 triples over 2-3 subjects, 1-2 predicates, 2-3 objects (IRIs and integers; with probability 0.2 also one xsd:boolean), "
         "datasets with two named graphs whose names are also data terms; distinct by full case content; non-trivial = evaluated without error")
